@@ -419,6 +419,77 @@ def run_solver(name, build, b):
     op('krylov/fgmres/complex', kr.fgmres, Ac, bc, maxiter=2, restart=2)
 
 
+def extra_cases(tier):
+    """direct kernel calls with admissible corner parameters the Python callers never pass: empty sweep ranges,
+    rectangular blocks with more / fewer columns than candidates, graph kernels with completely tied weights"""
+    from pyamg import amg_core
+    from pyamg.util import utils as ut
+    import pyamg.gallery as gal
+    I = np.int32
+
+    def sweeps():
+        A = sp.csr_array(gal.poisson((3, 2), format='csr'))
+        n = A.shape[0]
+        Ap, Aj, Ax = A.indptr.astype(I), A.indices.astype(I), A.data.copy()
+        x, b = np.arange(1.0, n + 1), np.ones(n)
+        om = np.array([1.0])
+        for start in (0, 2, n - 1):
+            for step in (1, -1):
+                r3 = (start, start, step)                      # empty range: start == stop
+                op('extra/gauss_seidel/empty-range', amg_core.gauss_seidel, Ap, Aj, Ax, x.copy(), b, *r3)
+                op('extra/sor/empty-range', amg_core.sor_gauss_seidel, Ap, Aj, Ax, x.copy(), b, *r3, 1.3)
+                op('extra/jacobi/empty-range', amg_core.jacobi, Ap, Aj, Ax, x.copy(), b, np.zeros(n), *r3, om)
+                op('extra/gauss_seidel_ne/empty-range', amg_core.gauss_seidel_ne, Ap, Aj, Ax, x.copy(), b, *r3, np.ones(n), 1.0)
+                op('extra/gauss_seidel_nr/empty-range', amg_core.gauss_seidel_nr, Ap, Aj, Ax, x.copy(), b.copy(), *r3, np.ones(n), 1.0)
+                op('extra/jacobi_ne/empty-range', amg_core.jacobi_ne, Ap, Aj, Ax, x.copy(), b, np.ones(n), np.zeros(n), *r3, om)
+                for bs in (1, 2, 3):
+                    Ab = sp.bsr_array(A, blocksize=(bs, bs))
+                    Bp, Bj, Bx = Ab.indptr.astype(I), Ab.indices.astype(I), np.ravel(Ab.data).copy()
+                    nb = n // bs
+                    st_ = min(start, nb - 1)
+                    rb = (st_, st_, step)
+                    dinv = np.tile(np.eye(bs).ravel(), nb)
+                    op('extra/bsr_gauss_seidel/empty-range', amg_core.bsr_gauss_seidel, Bp, Bj, Bx, x.copy(), b, *rb, bs)
+                    op('extra/bsr_jacobi/empty-range', amg_core.bsr_jacobi, Bp, Bj, Bx, x.copy(), b, np.zeros(n), *rb, bs, om)
+                    op('extra/block_gauss_seidel/empty-range', amg_core.block_gauss_seidel, Bp, Bj, Bx, x.copy(), b, dinv, *rb, bs)
+                    op('extra/block_jacobi/empty-range', amg_core.block_jacobi, Bp, Bj, Bx, x.copy(), b, dinv, np.zeros(n), *rb, om, bs)
+    yield 'extra/empty-sweep-ranges', sweeps
+
+    def rect_blocks():
+        # filter_operator / satisfy_constraints on BSR matrices with r x c blocks and K candidates, c > K, c == K, c < K
+        rs = np.random.RandomState(3)
+        for (r, c, K) in ((1, 3, 1), (2, 3, 1), (1, 2, 2), (2, 1, 2), (3, 2, 3), (2, 2, 3), (1, 1, 2)):
+            nbr, nbc = 4, 3
+            pat = (rs.rand(nbr, nbc) < 0.7).astype(float)
+            pat[:, 0] = 1.0
+            A = sp.bsr_array(sp.kron(sp.csr_array(pat), np.ones((r, c))), blocksize=(r, c))
+            A.data[:] = rs.rand(*A.data.shape)
+            Cc = A.copy()
+            B = rs.rand(nbc * c, K)
+            Bf = rs.rand(nbr * r, K)
+            op('extra/filter_operator/blocks=%dx%d/K=%d' % (r, c, K), ut.filter_operator, A, Cc, B, Bf)
+    yield 'extra/rectangular-blocks', rect_blocks
+
+    def tied_graphs():
+        # every weight equal: only the index tie-break decides (termination must not depend on distinct weights)
+        for shape in ((4,), (2, 2), (3, 3)):
+            G = sp.csr_array(gal.poisson(shape, format='csr'))
+            n = G.shape[0]
+            Ap, Aj = G.indptr.astype(I), G.indices.astype(I)
+            for val in (0.0, 0.75):
+                y = np.full(n, val)
+                x = np.full(n, -1, dtype=I)
+                op('extra/mis_parallel/tied', amg_core.maximal_independent_set_parallel, n, Ap, Aj, -1, 1, 0, x, y, -1)
+                for k in (1, 2):
+                    xk = np.empty(n, dtype=I)
+                    op('extra/mis_k/tied', amg_core.maximal_independent_set_k_parallel, n, Ap, Aj, k, xk, y.copy(), -1)
+                col = np.empty(n, dtype=I)
+                op('extra/coloring_jp/tied', amg_core.vertex_coloring_jones_plassmann, n, Ap, Aj, col, y.copy())
+                col = np.empty(n, dtype=I)
+                op('extra/coloring_ldf/tied', amg_core.vertex_coloring_LDF, n, Ap, Aj, col, y.copy())
+    yield 'extra/tied-weights', tied_graphs
+
+
 def main(argv):
     if '--replay' in argv:
         rec = pickle.load(open(argv[argv.index('--replay') + 1], 'rb'))
@@ -450,6 +521,12 @@ def main(argv):
             continue
         STATE['case'] = 'solver/' + cid
         run_solver(cid, build, b)
+        ncase += 1
+    for idx, (cid, fn) in enumerate(extra_cases(tier)):
+        if (idx + 5) % K != k or (only and cid != only):
+            continue
+        STATE['case'] = cid
+        fn()
         ncase += 1
     with open(os.path.join(out, 'part_%d.json' % k), 'w') as f:
         json.dump(dict(cases=ncase, calls=STATE['calls'], exc=STATE['exc'], ops=STATE['ops'], kernels=kernels), f)
